@@ -313,6 +313,42 @@ def gds_tables(repo):
     out.append("end L21.Gen")
     return "\n".join(out) + "\n", rep
 
+def serde_fields(repo, rel):
+    """(struct, field, type class, has default, skip rule) for every named field of every struct deriving Serialize in `rel`."""
+    src = strip_comments(open(os.path.join(repo, rel)).read())
+    rows = []
+    for m in re.finditer(r"((?:#\[[^\]]*\]\s*)*)pub struct (\w+)\s*\{", src):
+        if "Serialize" not in m.group(1):
+            continue
+        name = m.group(2)
+        # body
+        i = m.end() - 1
+        depth = 0
+        for j in range(i, len(src)):
+            if src[j] == "{": depth += 1
+            elif src[j] == "}":
+                depth -= 1
+                if depth == 0: break
+        body = src[i + 1:j]
+        for fm in re.finditer(r"((?:#\[[^\]]*\]\s*)*)pub (\w+)\s*:\s*([^,\n]+),", body):
+            attrs, fname, ty = fm.group(1), fm.group(2), fm.group(3).strip()
+            serde = " ".join(re.findall(r"#\[serde\(([^\]]*)\)\]", attrs))
+            has_default = bool(re.search(r"\bdefault\b", serde))
+            if re.search(r"skip_serializing_if\s*=\s*\"Option::is_none\"", serde): skip = ".ifNone"
+            elif re.search(r"skip_serializing_if\s*=\s*\"Vec::is_empty\"", serde): skip = ".ifEmpty"
+            elif re.search(r"skip_serializing_if\s*=\s*\"is_false\"", serde): skip = ".ifFalse"
+            elif re.search(r"skip_serializing_if", serde): raise Unrec("unknown skip_serializing_if in %s.%s: %s" % (name, fname, serde))
+            elif re.search(r"\bskip_serializing\b", serde): skip = ".always"
+            elif re.search(r"\bskip\b|\bskip_deserializing\b|\bflatten\b|\bwith\b", serde): raise Unrec("unsupported serde attribute in %s.%s: %s" % (name, fname, serde))
+            else: skip = ".never"
+            if ty == "Unsupported": tc = ".unit"
+            elif ty == "bool": tc = ".bool"
+            elif ty.startswith("Option<"): tc = ".opt %s" % ("true" if ty == "Option<Unsupported>" or ty == "Option<()>" else "false")
+            elif ty.startswith("Vec<"): tc = ".vec"
+            else: tc = ".other"
+            rows.append((name, fname, tc, has_default, skip))
+    return rows
+
 C20_FILES = ["layout21raw/src/gds.rs", "layout21raw/src/proto.rs", "layout21raw/src/lef.rs",
              "layout21raw/src/data.rs", "layout21tetris/src/conv/raw.rs"]
 
@@ -358,6 +394,24 @@ def main():
         report["fallback"].append("gds tables: unrecognised: " + str(e))
     except Exception as e:  # source layout changed beyond recognition
         report["fallback"].append("gds tables: translator error: %r" % (e,))
+    try:
+        out = ["-- GENERATED by /verif/tools/translate.py: serde field attributes of the GDSII and LEF data models — do not edit.",
+               "import L21.Model.Serde", "namespace L21.Gen", "open L21.Serde", ""]
+        for nm, rel in (("gdsSerdeFields", "gds21/src/data.rs"), ("lefSerdeFields", "lef21/src/data.rs")):
+            rows = serde_fields(repo, rel)
+            out.append("/-- %s: (struct, field, type class, has `default`, skip rule) -/" % rel)
+            out.append("def %s : List (String × String × Ty × Bool × Skip) := [\n  " % nm + ",\n  ".join('("%s", "%s", %s, %s, %s)' % (a, b, c, "true" if d else "false", e) for a, b, c, d, e in rows) + "]")
+            report["constructs"][nm] = "extracted (%d fields)" % len(rows)
+        out.append("\nend L21.Gen")
+        text = "\n".join(out) + "\n"
+        path = os.path.join(outdir, "SerdeFields.lean")
+        old = open(path).read() if os.path.exists(path) else None
+        if old != text:
+            open(path, "w").write(text)
+    except Unrec as e:
+        report["fallback"].append("serde fields: unrecognised: " + str(e))
+    except Exception as e:
+        report["fallback"].append("serde fields: translator error: %r" % (e,))
     try:
         sites = hash_iter_sites(repo)
         text = ("-- GENERATED by /verif/tools/translate.py: hash-container iteration sites in the conversion code — do not edit.\n"
